@@ -23,8 +23,23 @@ Definition process_text (s : st) : st :=
   let s3 := match t with [] => s2 | _ => if has_blank_line t then err "empty line" s2 else s2 end in
   s3 <| buf ::= cons t |> <| ws := true |>.
 
+(* utils.go reservedID: the form of the anchors the xhtml exporter generates itself *)
+Fixpoint strip_prefix (p x : str) : option str :=
+  match p, x with
+  | [], _ => Some x
+  | a :: p', b :: x' => if a =? b then strip_prefix p' x' else None
+  | _, [] => None
+  end.
+Definition reserved_id (id : str) : bool :=
+  existsb (fun p => match strip_prefix p id with
+                    | Some (c :: r) => forallb (fun d => ((48 <=? d) && (d <=? 57)) || (d =? 45)) (c :: r)
+                    | _ => false end) [R "s"; R "fig"; R "tbl"; R "poem"]
+  || str_eqb id (R "toc-title").
 Definition store_id (id : str) (i : idinfo) (s : st) : st :=
-  let s1 := if has_key id (ids s) then let q := quiet s in (err "already used id" (s <| quiet := false |>)) <| quiet := q |> else s in
+  let s1 := if has_key id (ids s) then let q := quiet s in (err "already used id" (s <| quiet := false |>)) <| quiet := q |>
+            else if (match fmt s with FX => true | _ => false end) && reserved_id id
+                 then let q := quiet s in (err "id has the form of a generated anchor" (s <| quiet := false |>)) <| quiet := q |>
+            else s in
   s1 <| ids ::= assoc_set id i |>.
 
 Definition valid_formats : list string := ["markdown"; "xhtml"; "latex"; "epub"; "mom"]%string.
